@@ -6,6 +6,8 @@ import MaltModel.Proofs.C08Activity
 import MaltModel.Proofs.C08Dynamic
 import MaltModel.Proofs.C08Classes
 import MaltModel.Proofs.C08Nested
+import MaltModel.Proofs.C08Comp
+import MaltModel.Proofs.C08CompDynamic
 /-
 C08 — scope (activity) analysis matches Python's own binding rules.
 
@@ -24,8 +26,11 @@ Theorems (all for every program of the stated fragment, every analyzer state; no
                       tree = those of `Spec.table`, when nested functions' parameters do not leak harmfully
   C08_classes_nested  parameters, bound locals, declared globals/nonlocals of *every* function definition nested in
                       statement position anywhere in the tree = those of its block in `Spec.table`
-The fragment `FragS` excludes comprehensions, parameter annotations, async constructs and
-`EXTRA_LOOP_TEST`; these are covered by the correspondence and the oracles only.
+  C08_compositional_comp, C08_dynamic_comp(_lookup)   the first three for the larger fragments `FragSC` / `FragSD`,
+                      which include comprehensions of all kinds (without named expressions inside, for the
+                      dynamic theorem)
+The fragment `FragS` excludes comprehensions, parameter annotations, async constructs and `EXTRA_LOOP_TEST`;
+`FragSC`/`FragSD` admit comprehensions.  What lies outside is covered by the correspondence and the oracles only.
 -/
 namespace Malt.Props.C08
 open Malt.Py Malt.Analysis Malt.Spec
@@ -112,6 +117,40 @@ theorem C08_dynamic_lookup (t : Stmt) (hf : FragS t = true) (hu' : uniqueAnnos (
   have hu := unique_of_bool _ hu'
   intro u huu
   obtain ⟨c, hc, hg⟩ := C08_dynamic_partial t hf u huu
+  exact ⟨c, by rw [St.anno?, find_of_unique _ hu _ _ _ hc]; rfl, hg⟩
+
+/-! ### the same with comprehensions -/
+
+/-- **Compositionality, comprehensions included.**  On the larger fragment `FragSC` (list / set / dict
+    comprehensions and generator expressions, nested, with lambdas inside; still no parameter annotations, no async)
+    the analysis adds exactly the effect `effSC [] t`, where the comprehension-target bookkeeping of
+    `_track_symbol` (`self.state[_Comprehension]`) is threaded through the expression by `effC`. -/
+theorem C08_compositional_comp (t : Stmt) (hf : FragSC t = true) : Adds St.init (analyze t) (effSC [] t) :=
+  visitS_addsC t St.init [] init_plainS hf
+
+/-- Expression level, with any comprehensions already open (`cs`): the state after visiting `e` has the effect
+    `(effC … cs e).1` added to the current scope and the comprehension stack `(effC … cs e).2`. -/
+theorem C08_compositional_comp_expr (e : Expr) (st : St) (h : PlainC st) (hf : FragC e = true) (fns : List FnCtx)
+    (aug anno : Bool) (hc : InCtx st fns aug anno) :
+    AddsC st.comps (effC fns aug anno st.comps e).2 st (visitE e st) (effC fns aug anno st.comps e).1 :=
+  visitE_addsC e st h hf fns aug anno hc st.comps rfl
+
+/-- **Dynamic soundness, comprehensions included** (fragment `FragSD`: as `FragSC`, and inside a comprehension
+    the only names in Store context are its iteration variables — no named expression, class `walrusInComp`):
+    every statement-level node gets a scope covering what it actually reads (iteration variables of its
+    comprehensions aside) and rebinds or deletes. -/
+theorem C08_dynamic_comp (t : Stmt) (hf : FragSD t = true) :
+    ∀ u ∈ stmtUnits t, ∃ c, (u.id, keyOf u.key, c) ∈ (analyze t).annos ∧
+      (∀ x ∈ u.reads, QN.sym x ∈ c.read) ∧ (∀ x ∈ u.writes, QN.sym x ∈ c.modified ∨ QN.sym x ∈ c.deleted) :=
+  visitS_unitsD t St.init [] init_plainS hf
+
+/-- …and through the lookup by node id. -/
+theorem C08_dynamic_comp_lookup (t : Stmt) (hf : FragSD t = true) (hu' : uniqueAnnos (analyze t).annos = true) :
+    ∀ u ∈ stmtUnits t, ∃ c, (analyze t).anno? u.id (keyOf u.key) = some c ∧
+      (∀ x ∈ u.reads, QN.sym x ∈ c.read) ∧ (∀ x ∈ u.writes, QN.sym x ∈ c.modified ∨ QN.sym x ∈ c.deleted) := by
+  have hu := unique_of_bool _ hu'
+  intro u huu
+  obtain ⟨c, hc, hg⟩ := C08_dynamic_comp t hf u huu
   exact ⟨c, by rw [St.anno?, find_of_unique _ hu _ _ _ hc]; rfl, hg⟩
 
 /- FULL STATEMENT (not proved in this generality):
@@ -409,6 +448,27 @@ theorem leak_counterexample :
     kind (table leakTree) 1 "N" = .globalImplicit := by decide
 example : harmfulLeaks leakTree = ["N"] := by decide
 example : FragS leakTree = true ∧ SpecOkS leakTree = true := by decide
+
+/-- `def f(b): r = [t + q for t in b if t]; s = {k: (lambda: k)() for k in r}; return list(u for u in s)` -/
+def compTree : Stmt :=
+  .functionDef 1 "f" (.arguments 2 [] [.arg 3 "b" []] [] [] [] [] [])
+    [ .assign 4 [.name 5 "r" .store]
+        (.comp 6 .listComp [.binop 7 "Add" (.name 8 "t" .load) (.name 9 "q" .load)]
+          [.comprehension 10 (.name 11 "t" .store) (.name 12 "b" .load) [.name 13 "t" .load] false]),
+      .assign 14 [.name 15 "s" .store]
+        (.comp 16 .dictComp [.name 17 "k" .load, .call 18 (.lambda 19 (.arguments 20 [] [] [] [] [] [] []) (.name 21 "k" .load)) [] []]
+          [.comprehension 22 (.name 23 "k" .store) (.name 24 "r" .load) [] false]),
+      .ret 25 [.call 26 (.name 27 "list" .load)
+        [.comp 28 .genExp [.name 29 "u" .load] [.comprehension 30 (.name 31 "u" .store) (.name 32 "s" .load) [] false]] []] ]
+    [] [] false
+
+example : FragSD compTree = true ∧ FragSC compTree = true ∧ FragS compTree = false ∧
+    uniqueAnnos (analyze compTree).annos = true := by decide
+/-- the first statement reads `b` and `q` (not its iteration variable `t`) and rebinds `r` -/
+example : ((stmtUnits compTree)[1]?.map fun u => (u.id, u.reads, u.writes)) = some (4, ["b", "q"], ["r"]) := by decide
+example : ((analyze compTree).anno? 4 .scope).map (fun c =>
+    (c.read.contains (.sym "b"), c.read.contains (.sym "q"), c.read.contains (.sym "t"), c.modified.contains (.sym "r")))
+    = some (true, true, false, true) := by decide
 
 /-- `r = [(y := t) for t in b]` rebinds `y`; the statement's scope has neither `y ∈ modified` nor `y ∈ deleted`. -/
 def walrusStmt : Stmt :=
